@@ -12,6 +12,7 @@ import (
 	"path/filepath"
 	"sort"
 	"strings"
+	"sync"
 
 	"golang.org/x/tools/go/callgraph"
 	"golang.org/x/tools/go/callgraph/cha"
@@ -41,6 +42,9 @@ type Prog struct {
 
 	// Normalized: number of call sites of unknown functions expanded before analysis.
 	Normalized int
+	// Renamed: known function key -> key of the function that took its place (one name lost, one gained on the
+	// same receiver or in the same package).
+	Renamed map[string]string
 
 	CG      *callgraph.Graph
 	CGKind  string
@@ -51,6 +55,74 @@ type Prog struct {
 // DefaultKnown is the known-function table used when LoadOptions.Known is nil (set by main from
 // tables/known_funcs.txt).
 var DefaultKnown map[string]bool
+
+// DefaultSigs: key -> signature of the known functions (tables/known_sigs.txt).
+var DefaultSigs map[string]string
+
+// ReadSigs reads a signature table (key TAB signature per line, # comments).
+func ReadSigs(path string) map[string]string {
+	b, err := os.ReadFile(path)
+	if err != nil {
+		return nil
+	}
+	out := map[string]string{}
+	for _, l := range strings.Split(string(b), "\n") {
+		if l == "" || strings.HasPrefix(l, "#") {
+			continue
+		}
+		if i := strings.Index(l, "\t"); i > 0 {
+			out[l[:i]] = l[i+1:]
+		}
+	}
+	return out
+}
+
+// renamedByProg: *ssa.Program -> map[new key]old key, for CalleeName / FuncName (several programs are analysed in
+// one process by the batteries).
+var renamedByProg sync.Map
+
+// KnownFullName is the full name CalleeName reports for calls of fn (the name on the pinned tree when fn was merely
+// renamed).
+func KnownFullName(fn *ssa.Function) string {
+	full := fn.String()
+	if fn.Object() != nil {
+		if f, ok := fn.Object().(*types.Func); ok {
+			full = f.FullName()
+		}
+	}
+	return oldNameOf(fn.Prog, full)
+}
+
+// KnownName is fn.Name(), or the name the function had on the pinned tree when it was merely renamed.
+func KnownName(fn *ssa.Function) string {
+	if fn == nil {
+		return ""
+	}
+	full := fn.String()
+	if fn.Object() != nil {
+		if f, ok := fn.Object().(*types.Func); ok {
+			full = f.FullName()
+		}
+	}
+	old := oldNameOf(fn.Prog, full)
+	if i := strings.LastIndex(old, "."); i >= 0 && old != full {
+		return old[i+1:]
+	}
+	return fn.Name()
+}
+
+// oldNameOf maps the full name of a function that took the place of a known one back to the known name.
+func oldNameOf(prog *ssa.Program, name string) string {
+	if prog == nil {
+		return name
+	}
+	if m, ok := renamedByProg.Load(prog); ok {
+		if old, ok := m.(map[string]string)[name]; ok {
+			return old
+		}
+	}
+	return name
+}
 
 // ReadKnown reads a known-function table (one key per line, # comments).
 func ReadKnown(path string) map[string]bool {
@@ -121,7 +193,69 @@ func Load(o LoadOptions) (*Prog, error) {
 	if o.Known == nil {
 		o.Known = DefaultKnown
 	}
+	renamed := map[string]string{}
 	if len(o.Known) > 0 {
+		// a function that was merely renamed: its receiver (or package) lost exactly one known name and gained
+		// exactly one new one. The new name is read as the old one (anchors resolve through Prog.Renamed) and is
+		// not expanded into its callers.
+		have := map[string]bool{}
+		for _, k := range KnownFuncs(pkgs) {
+			have[k] = true
+		}
+		owner := func(k string) string {
+			if i := strings.LastIndex(k, "."); i >= 0 {
+				return k[:i]
+			}
+			return k
+		}
+		lost, gained := map[string][]string{}, map[string][]string{}
+		for k := range o.Known {
+			if !have[k] && strings.HasPrefix(strings.TrimLeft(k, "(*"), Module) && !strings.Contains(k, Module+"/pb.") {
+				lost[owner(k)] = append(lost[owner(k)], k)
+			}
+		}
+		for k := range have {
+			if !o.Known[k] {
+				gained[owner(k)] = append(gained[owner(k)], k)
+			}
+		}
+		var nowSigs map[string]string
+		for ow, l := range lost {
+			g := gained[ow]
+			if len(l) == 1 && len(g) == 1 {
+				renamed[l[0]] = g[0]
+				continue
+			}
+			// several at once: pair those whose signature is unique on both sides
+			if len(g) == 0 || DefaultSigs == nil {
+				continue
+			}
+			if nowSigs == nil {
+				nowSigs = FuncSigs(pkgs)
+			}
+			bySigL, bySigG := map[string][]string{}, map[string][]string{}
+			for _, k := range l {
+				bySigL[DefaultSigs[k]] = append(bySigL[DefaultSigs[k]], k)
+			}
+			for _, k := range g {
+				bySigG[nowSigs[k]] = append(bySigG[nowSigs[k]], k)
+			}
+			for sig, ls := range bySigL {
+				if gs := bySigG[sig]; sig != "" && len(ls) == 1 && len(gs) == 1 {
+					renamed[ls[0]] = gs[0]
+				}
+			}
+		}
+		if len(renamed) > 0 {
+			k2 := map[string]bool{}
+			for k := range o.Known {
+				k2[k] = true
+			}
+			for _, g := range renamed {
+				k2[g] = true
+			}
+			o.Known = k2
+		}
 		// only when the tree has functions outside the table
 		unknown := false
 		for _, k := range KnownFuncs(pkgs) {
@@ -138,7 +272,7 @@ func Load(o LoadOptions) (*Prog, error) {
 			}
 		}
 	}
-	p := &Prog{Dir: o.Dir, Fset: fset, Pkgs: pkgs, Normalized: normalized, ByPath: map[string]*packages.Package{},
+	p := &Prog{Dir: o.Dir, Fset: fset, Pkgs: pkgs, Normalized: normalized, Renamed: renamed, ByPath: map[string]*packages.Package{},
 		SSAPkg: map[string]*ssa.Package{}, All: map[*ssa.Function]bool{}, srcOnce: map[string][]string{}}
 	for _, pk := range pkgs {
 		p.ByPath[pk.PkgPath] = pk
@@ -155,6 +289,18 @@ func Load(o LoadOptions) (*Prog, error) {
 	}
 	prog.Build()
 	p.SSA = prog
+	if os.Getenv("VERIF_DEBUG_RENAMED") != "" {
+		for o, n := range renamed {
+			fmt.Fprintln(os.Stderr, "renamed", o, "->", n)
+		}
+	}
+	if len(renamed) > 0 {
+		back := map[string]string{}
+		for o, n := range renamed {
+			back[n] = o
+		}
+		renamedByProg.Store(prog, back)
+	}
 	for fn := range ssautil.AllFunctions(prog) {
 		if fn.Pkg == nil || fn.Blocks == nil {
 			continue
@@ -253,6 +399,31 @@ func (p *Prog) PkgSyntax(rel string) (*packages.Package, []*ast.File) {
 // Func looks up a package-level function or a method by package-relative
 // path, receiver type name ("" for functions) and name.
 func (p *Prog) Func(rel, recv, name string) *ssa.Function {
+	if fn := p.funcByName(rel, recv, name); fn != nil {
+		return fn
+	}
+	// renamed?
+	path := Module
+	if rel != "" {
+		path += "/" + rel
+	}
+	var keys []string
+	if recv == "" {
+		keys = []string{path + "." + name}
+	} else {
+		keys = []string{"(*" + path + "." + recv + ")." + name, "(" + path + "." + recv + ")." + name}
+	}
+	for _, k := range keys {
+		if nk, ok := p.Renamed[k]; ok {
+			if i := strings.LastIndex(nk, "."); i >= 0 {
+				return p.funcByName(rel, recv, nk[i+1:])
+			}
+		}
+	}
+	return nil
+}
+
+func (p *Prog) funcByName(rel, recv, name string) *ssa.Function {
 	tp := p.Pkg(rel)
 	if tp == nil {
 		return nil
@@ -320,7 +491,86 @@ func (p *Prog) Field(rel, typ, field string) *types.Var {
 			return st.Field(i)
 		}
 	}
+	// renamed? the struct has lost exactly this known field and gained exactly one field of the same type
+	key := n.Obj().Pkg().Path() + "." + n.Obj().Name()
+	known := DefaultFields[key]
+	if wantT, ok := known[field]; ok {
+		have := map[string]bool{}
+		for i := 0; i < st.NumFields(); i++ {
+			have[st.Field(i).Name()] = true
+		}
+		// pair the lost and the gained fields of the struct by type, where the type is unique on both sides
+		lostByT := map[string][]string{}
+		for f, t := range known {
+			if !have[f] {
+				lostByT[t] = append(lostByT[t], f)
+			}
+		}
+		gainedByT := map[string][]*types.Var{}
+		for i := 0; i < st.NumFields(); i++ {
+			if _, wasKnown := known[st.Field(i).Name()]; !wasKnown {
+				t := types.TypeString(st.Field(i).Type(), nil)
+				gainedByT[t] = append(gainedByT[t], st.Field(i))
+			}
+		}
+		if l, g := lostByT[wantT], gainedByT[wantT]; len(l) == 1 && l[0] == field && len(g) == 1 {
+			return g[0]
+		}
+	}
 	return nil
+}
+
+// DefaultFields: struct (pkgpath.Type) -> field -> type string, of the tree the rules were confirmed against
+// (tables/known_fields.txt).
+var DefaultFields map[string]map[string]string
+
+// ReadFields reads tables/known_fields.txt (struct TAB field TAB type per line).
+func ReadFields(path string) map[string]map[string]string {
+	b, err := os.ReadFile(path)
+	if err != nil {
+		return nil
+	}
+	out := map[string]map[string]string{}
+	for _, l := range strings.Split(string(b), "\n") {
+		if l == "" || strings.HasPrefix(l, "#") {
+			continue
+		}
+		parts := strings.SplitN(l, "\t", 3)
+		if len(parts) != 3 {
+			continue
+		}
+		if out[parts[0]] == nil {
+			out[parts[0]] = map[string]string{}
+		}
+		out[parts[0]][parts[1]] = parts[2]
+	}
+	return out
+}
+
+// StructFields lists struct TAB field TAB type for every struct type declared in the module packages (pb excluded).
+func StructFields(pkgs []*packages.Package) []string {
+	var out []string
+	for _, pk := range pkgs {
+		if !strings.HasPrefix(pk.PkgPath, Module) || strings.HasSuffix(pk.PkgPath, "/pb") {
+			continue
+		}
+		sc := pk.Types.Scope()
+		for _, name := range sc.Names() {
+			tn, ok := sc.Lookup(name).(*types.TypeName)
+			if !ok {
+				continue
+			}
+			st, ok := tn.Type().Underlying().(*types.Struct)
+			if !ok {
+				continue
+			}
+			for i := 0; i < st.NumFields(); i++ {
+				out = append(out, pk.PkgPath+"."+name+"\t"+st.Field(i).Name()+"\t"+types.TypeString(st.Field(i).Type(), nil))
+			}
+		}
+	}
+	sort.Strings(out)
+	return out
 }
 
 // Global returns the package-level variable rel.name.
@@ -342,7 +592,7 @@ func FuncName(fn *ssa.Function) string {
 	if fn == nil {
 		return "<nil>"
 	}
-	s := fn.String()
+	s := oldNameOf(fn.Prog, fn.String())
 	s = strings.ReplaceAll(s, Module+"/", "")
 	s = strings.ReplaceAll(s, Module+".", "gohbase.")
 	s = strings.ReplaceAll(s, Module, "gohbase")
